@@ -110,7 +110,9 @@ TransferConservation(w, h) ==
 Conservation(w, h) ==
   LET items == FlatItems(w.msgs) IN
   \A k \in UNION {DOMAIN w.acct[a].esdt : a \in Accts(w)} \cup ItemKeys(items) \cup DOMAIN h.supply : TotalI(w, items, k) = SupplyOf(h, k)
-NoNegative(w) == \A a \in Accts(w) : \A k \in DOMAIN w.acct[a].esdt : w.acct[a].esdt[k].val >= 0
+\* (Bad: a positive amount the scaled projection cannot represent - e.g. a mint of a non-multiple of the trace's unit; Bad + 1: such an amount
+\*  with a negative sign)
+NoNegative(w) == \A a \in Accts(w) : \A k \in DOMAIN w.acct[a].esdt : w.acct[a].esdt[k].val >= 0 \/ w.acct[a].esdt[k].val = Bad
 
 \* tokens the driver deliberately gives two creators (outside the single-creator discipline, to reach "same token and nonce, different
 \* hash") are exempt from the clauses that assume the discipline
@@ -123,7 +125,7 @@ IssuedToks == IF "issued" \in DOMAIN cfg THEN Range(cfg.issued) \cup (IF "dup" \
 KeyOfIssued(k, e) ==
   ~("issued" \in DOMAIN cfg) \/ (IF e.hm /\ e.meta.nonce > 0 THEN \E t \in IssuedToks : k = t \o NBHex(e.meta.nonce) ELSE k \in IssuedToks)
 EntryWF(k, e) ==
-  /\ e.val > 0 \/ (e.val = 0 /\ e.type = 0 /\ ~e.hm /\ FlagSet(e.props))
+  /\ e.val > 0 \/ e.val = Bad \/ (e.val = 0 /\ e.type = 0 /\ ~e.hm /\ FlagSet(e.props))
   /\ e.type = 0 => ~e.hm
   /\ e.type = 1 => e.hm /\ e.meta.nonce > 0 /\ \E t \in {SubSeq(k, 1, j) : j \in 0..Len(k)} : k = t \o NBHex(e.meta.nonce)
   /\ e.type \in {0, 1}
